@@ -125,6 +125,15 @@ def gen_case(seed, overlong=0.0):
                 r["drop"] = [rnd.randint(0, len(keys)) if rnd.random() < 0.2 else 0 for _ in range(ns)]
             recs.append(r)
             pos += rnd.choice([0, 1, 1, 5, 50, 1000, 40000])
+    # some contigs start far into their sequence (first record beyond the first index window / bin of any min_shift)
+    for c in used:
+        if rnd2.random() < 0.3:
+            off = rnd2.choice([5000, 70000, 3000000, 200000000])
+            for r_ in recs:
+                if r_["contig"] == c:
+                    r_["pos"] += off
+            if contigs[c][1]:
+                contigs[c] = (contigs[c][0], 500000000 + c)
     return dict(contigs=contigs, hdr_filters=hdr_filters, samples=samples, infos=infos, fmts=fmts, has_gt=has_gt, recs=recs, seed=seed)
 
 def sval(t, v):
